@@ -17,6 +17,7 @@ mod scn;
 mod script;
 mod session;
 mod world_a;
+mod world_b;
 
 use engine::Tier;
 
